@@ -18,6 +18,8 @@
 //	compact_expressions dedup_emits inline            (ir/compact.go, ir/inline.go)
 //	unused_pipeline   = CompactUnused; CompactConstants; CompactExpressions; CompactTypes; ReorderTypes
 //	dxil_prepare dxil sroa mem2reg dce dxil_opt       (package dxil through verif_hooks_c13.go)
+//	stage:sroa stage:mem2reg stage:dce                 one pass of runOptPasses applied to the module the
+//	                                                   preceding stages of dxil.Compile produce (its own "before" is reported)
 //
 // On the raw module (lowering stopped before its trailing passes, through
 // wgsl.VerifLowerRaw): raw:compact_constants raw:compact_expressions
@@ -195,7 +197,30 @@ func doRun(j *job, res map[string]any) {
 			var m *ir.Module
 			var fin func()
 			var cmp []byte
-			if raw {
+			if strings.HasPrefix(p, "stage:") {
+				name = strings.TrimPrefix(p, "stage:")
+				m0, err := lower()
+				if err != nil {
+					pr["err"] = err.Error()
+					return
+				}
+				m, err = dxil.VerifPrepareModule(m0)
+				if err != nil {
+					pr["err"] = "prepare: " + err.Error()
+					return
+				}
+				for _, st := range []string{"sroa", "mem2reg", "dce"} {
+					if st == name {
+						break
+					}
+					if err := dxil.VerifRunPass(m, st); err != nil {
+						pr["err"] = st + ": " + err.Error()
+						return
+					}
+				}
+				cmp = marshal(common.Dump(m))
+				pr["before"] = json.RawMessage(cmp)
+			} else if raw {
 				if !wantRaw {
 					pr["err"] = "raw lowering unavailable"
 					return
